@@ -116,7 +116,8 @@ def norm(t, keep_conv=False):
     if k == "discr":
         return ("discr", norm(t[1], keep_conv), t[2] if len(t) > 2 else ())
     if k == "agg":
-        return ("agg", t[1], tuple(norm(a, keep_conv) for a in t[2]))
+        ops = tuple(norm(a, keep_conv) for a in t[2])
+        return ("agg", t[1], ops)
     if k == "closure":
         return ("closure", t[1], tuple(norm(a, keep_conv) for a in t[2]))
     if k == "cast":
